@@ -38,7 +38,8 @@ LEVEL_NOTE = ('Trusted: the model in this file (written from proxy/http/proxy/pl
 TECHNIQUE = 'runtime monitoring: plugin-hook call log + audit hook + boundary transcripts vs an executable model of the plugin-chain semantics'
 RULE = ('case = (plugin order, behaviour table, follow-up requests, ending); non-trivial = some plugin does something other '
         'than pass, or the connection ends abnormally; distinct = order x table x ending')
-ASSUMPTIONS = ['plugins have distinct names', 'a plugin that drops a follow-up request queues its own response for it']
+ASSUMPTIONS = ['plugins have distinct names', 'a plugin that drops a follow-up request queues its own response for it',
+               'a plugin that returns a new request object carries the connection\'s PROXY-protocol attribute over to it']
 SHARDS = {'quick': 8, 'thorough': 16}
 BUDGET_S = {'quick': 45, 'thorough': 800}
 EXHAUSTIVE = {'quick': ['single non-pass behaviour x hook x position x plugin lists of 1..3 (all orders) x endings {normal, client-close}'],
@@ -89,7 +90,9 @@ class _Rec(HttpProxyBasePlugin):
             request.add_header(b'X-P%d-%s%d' % (self.IDX, hook[:1].encode(), self.n[hook]), b'1')
         elif b == 'replace':
             # "Return optionally modified request object": a plugin may hand back a different object altogether
+            old_protocol = request.protocol
             request = HttpParser.request(request.build(for_proxy=True))
+            request.protocol = old_protocol     # the PROXY-protocol line belongs to the connection, not to the request text
             request.add_header(b'X-P%d-%s%d' % (self.IDX, hook[:1].encode(), self.n[hook]), b'1')
         ret: Optional[HttpParser] = request
         if b == 'drop':
@@ -155,11 +158,91 @@ CLASSES = [P0, P1, P2]
 REQ_HOOKS = ('before_upstream_connection', 'handle_client_request')
 
 
-def flags_for(order: List[int]) -> Any:
-    return make_flags([], plugins=[CLASSES[i] for i in order], cache_key='c09:' + ''.join(map(str, order)))
+PP_LINES = {'TCP4': b'PROXY TCP4 192.0.2.7 198.51.100.9 50123 8899\r\n', 'TCP6': b'PROXY TCP6 2001:db8::7 2001:db8::9 50123 8899\r\n',
+            'UNKNOWN': b'PROXY UNKNOWN\r\n'}
+
+
+def flags_for(order: List[int], pp: bool = False) -> Any:
+    return make_flags(['--enable-proxy-protocol'] if pp else [], plugins=[CLASSES[i] for i in order],
+                      cache_key='c09:%s:%s' % (''.join(map(str, order)), pp))
+
+
+AUTH_NAME = b'proxy.http.proxy.auth.AuthPlugin'
+
+
+def run_auth_order(case: Dict[str, Any]) -> Dict[str, Any]:
+    """--basic-auth next to user plugins, the authentication plugin's own name listed nowhere / first / in the middle / last of
+    the configured plugins: it is consulted ahead of every user plugin all the same.  Judged at the loaded plugin table, and on
+    the wire: an anonymous request gets 407 and no user plugin hook sees it; an authenticated one runs the chain in order."""
+    rng = random.Random('c09a:%s:%s' % (case['seed'], case['i']))
+    order: List[int] = case['order']
+    pos = case['auth_at']
+    plugins: List[Any] = [CLASSES[i] for i in order]
+    if pos is not None:
+        plugins.insert(min(pos, len(plugins)), AUTH_NAME if case.get('as_name', True) else __import__('proxy.http.proxy.auth', fromlist=['AuthPlugin']).AuthPlugin)
+    TABLE.clear()
+    del LOG[:]
+    shim.S.reset()
+    flags = make_flags(['--basic-auth', 'user:pass'], plugins=plugins, cache_key='c09a:%s:%s:%s' % (order, pos, case.get('as_name', True)))
+    viol: List[Dict[str, Any]] = []
+    obs: Dict[str, int] = {'auth_order_cases': 1}
+    feat = 'auth-order|listed-%s' % ('nowhere' if pos is None else ('first' if pos == 0 else ('last' if pos >= len(order) else 'middle')))
+    loaded = [k.__name__ for k in flags.plugins[b'HttpProxyBasePlugin']]
+    want = ['AuthPlugin'] + ['P%d' % i for i in order]
+    if loaded != want:
+        viol.append({'key': feat + '|loaded-plugin-order', 'detail': {'loaded': loaded, 'want': want}})
+    rig = StepRig(flags, case.get('mode', 'local'))
+    try:
+        origin = rig.add_origin('127.0.%d.%d' % (rng.randint(0, 250), rng.randint(2, 250)))
+        hp = origin.hostport
+        alog = audit.start()
+        c = rig.add_client('unix')
+        c.send(b'GET http://%s/anon HTTP/1.1\r\nHost: %s\r\nX-Req-Id: anon\r\n\r\n' % (hp, hp))
+        rig.until(lambda: c.ended or b'\r\n\r\n' in c.rx, [c], idle_timeout=0.4)
+        rig.settle([c], quiet=4)
+        audit.stop()
+        hooks = [(e[0], e[1]) for e in LOG if e[1] in REQ_HOOKS]
+        connects = [a for (ev, a) in alog if ev == 'socket.connect']
+        if not bytes(c.rx).startswith(b'HTTP/1.1 407'):
+            viol.append({'key': feat + '|anonymous-request-not-answered-407', 'detail': {'got': bytes(c.rx[:120]), 'hooks': hooks}})
+        if hooks:
+            viol.append({'key': feat + '|user-plugin-consulted-before-authentication', 'detail': {'hooks': hooks, 'loaded': loaded}})
+        if connects or origin.accept() is not None:
+            viol.append({'key': feat + '|anonymous-request-contacted-upstream', 'detail': {'connects': [str(x) for x in connects]}})
+        del LOG[:]
+        c2 = rig.add_client('unix')
+        c2.send(b'GET http://%s/ok HTTP/1.1\r\nHost: %s\r\nX-Req-Id: ok\r\nProxy-Authorization: Basic dXNlcjpwYXNz\r\n\r\n' % (hp, hp))
+        box: Dict[str, Any] = {}
+
+        def acc() -> bool:
+            if 'oc' not in box:
+                p = origin.accept()
+                if p is not None:
+                    box['oc'] = p
+            if 'oc' in box:
+                box['oc'].pump()
+                return b'\r\n\r\n' in box['oc'].rx
+            return c2.ended
+        rig.until(acc, [c2], idle_timeout=0.4)
+        seq = [e[0] for e in LOG if e[1] == 'before_upstream_connection']
+        if 'oc' not in box:
+            viol.append({'key': feat + '|authenticated-request-not-forwarded', 'detail': {'client': bytes(c2.rx[:120])}})
+        elif seq != list(order):
+            viol.append({'key': feat + '|user-plugins-not-in-configured-order', 'detail': {'called': seq, 'configured': order}})
+        else:
+            obs['auth_order_checked'] = 1
+    except LoopDied as e:
+        viol.append({'key': feat + '|loop-died:%s' % e.where(), 'detail': {'tb': e.tb[-1000:]}})
+    finally:
+        audit.stop()
+        rig.close()
+    return {'viol': viol, 'nontrivial': True, 'sig': 'auth/%s/%s/%s' % (order, pos, case.get('as_name', True)), 'obs': obs,
+            'sample': {'case': case, 'loaded': loaded}}
 
 
 def run_case(case: Dict[str, Any]) -> Dict[str, Any]:
+    if case.get('kind') == 'auth-order':
+        return run_auth_order(case)
     rng = random.Random('c09:%s:%s' % (case['seed'], case['i']))
     order: List[int] = case['order']
     table = {(int(k.split(':')[0]), k.split(':')[1]): (v[0], v[1]) for k, v in case['table'].items()}
@@ -168,7 +251,7 @@ def run_case(case: Dict[str, Any]) -> Dict[str, Any]:
     REJECT['pad'] = case.get('reject_pad', 0)
     del LOG[:]
     shim.S.reset()
-    flags = flags_for(order)
+    flags = flags_for(order, bool(case.get('pp')))
     rig = StepRig(flags, case.get('mode', 'local'))
     viol: List[Dict[str, Any]] = []
     obs: Dict[str, int] = {}
@@ -211,8 +294,10 @@ def run_case(case: Dict[str, Any]) -> Dict[str, Any]:
                 pump_all()
                 return bool(pred())
             return rig.until(p, [client], idle_timeout=case.get('grace', 0.3))
-        # ---- first request ----
-        r0 = request('r0')
+        # ---- first request (behind a load balancer's PROXY protocol line when that option is on) ----
+        r0 = PP_LINES.get(case.get('pp') or '', b'') + request('r0')
+        if case.get('pp'):
+            obs['proxy_protocol:' + case['pp']] = 1
         if ending == 'client-close-mid-request':
             client.send(r0[:len(r0) // 2])
             rig.settle([client], quiet=4)
@@ -463,12 +548,22 @@ def cases(tier: str, seed: int):
         for perm in itertools.permutations(range(3), n):
             orders.append(list(perm))
     endings = ENDINGS_Q if tier == 'quick' else ENDINGS_ALL
+    for order in orders:
+        for pos in [None] + list(range(len(order) + 1)):
+            for as_name in (True, False):
+                i += 1
+                yield {'seed': seed, 'i': i, 'kind': 'auth-order', 'order': order, 'auth_at': pos, 'as_name': as_name,
+                       'mode': 'local' if i % 3 else 'remote'}
     # exhaustive: one non-pass behaviour of one plugin at one hook
     for order in orders:
         for ending in endings:
             i += 1
             yield {'seed': seed, 'i': i, 'order': order, 'table': {}, 'ending': ending, 'followups': 2 if ending == 'normal' else 0,
                    'resp_cuts': rng.choice([0, 2])}
+            for pp in ('TCP4', 'TCP6', 'UNKNOWN'):
+                i += 1
+                yield {'seed': seed, 'i': i, 'order': order, 'table': {}, 'ending': ending, 'followups': 1 if ending == 'normal' else 0,
+                       'resp_cuts': 0, 'pp': pp}
         for pos in range(len(order)):
             for (hook, beh, nth) in HOOK_BEH:
                 for ending in endings:
@@ -492,14 +587,15 @@ def cases(tier: str, seed: int):
             tb['%d:%s' % (rng.choice(order), hook)] = [beh, nth]
         i += 1
         yield {'seed': seed, 'i': i, 'order': order, 'table': tb, 'ending': rng.choice(ENDINGS_ALL), 'followups': rng.choice([0, 1, 3]),
-               'reject_pad': rng.choice([0, 0, 70000]),
+               'reject_pad': rng.choice([0, 0, 70000]), 'pp': rng.choice([None, None, None, 'TCP4', 'TCP6', 'UNKNOWN']),
                'resp_cuts': rng.choice([0, 2, 5]), 'mode': rng.choice(['local', 'local', 'remote'])}
 
 
 def floors(tier: str) -> Dict[str, int]:
     return {'chain_rounds_checked': 2000, 'chunk_rounds_checked': 500, 'lifecycle_checked': 800, 'rejections_checked': 100,
             'forwarded_requests_checked': 500, 'followups_checked': 300, 'distinct:hook_behaviour_position': 30,
-            'ending:client-reset-mid-request': 10, 'ending:origin-reset-mid-response': 10, 'client_stream_vs_chain_checked': 100}
+            'ending:client-reset-mid-request': 10, 'ending:origin-reset-mid-response': 10, 'client_stream_vs_chain_checked': 100,
+            'auth_order_checked': 60, 'proxy_protocol:UNKNOWN': 20, 'proxy_protocol:TCP4': 20}
 
 
 if __name__ == '__main__':
